@@ -2,7 +2,7 @@
 """Regenerates /verif/MANIFEST.json from checks.json (single source of truth)."""
 import json, os, subprocess
 V = os.path.dirname(os.path.dirname(os.path.abspath(__file__)))
-cfg = json.load(open(os.path.join(V, "checks.json")))
+cfg = {d.upper(): json.load(open(os.path.join(V, "harness", d, "check.json"))) for d in sorted(os.listdir(os.path.join(V, "harness"))) if os.path.exists(os.path.join(V, "harness", d, "check.json"))}
 props = [json.loads(l) for l in open(os.path.join(V, "properties.jsonl")) if l.strip()]
 hooks = json.load(open(os.path.join(V, "hooks.json")))
 checks, na = [], []
